@@ -30,6 +30,11 @@ R12f what is accepted is what is offered: the run log stops offering an item as 
      mutation in them (_cancel_command, <cmd>.cancel()/force(), tracking.mark_cancelled/mark_forced) is dominated by a test
      of a conclusive-state predicate on the instance id (a Tracking method that examines the states of that instance for
      all three conclusive members) whose "concluded" outcome raises.
+R12g a cancelled instruction is not started afterwards: a UOD / engine command instruction is offered as cancellable from the
+     moment the interpreter visits it, one tick before the command manager starts its command. A cancel accepted in that gap
+     marks the node cancelled and records Cancelled, but the request is already queued - so CommandManager._execute_command
+     must test the conclusive-state predicate on the request's instance id before it dispatches to the executors, and the
+     concluded outcome must retire the request without reaching them.
 """
 from __future__ import annotations
 
@@ -316,3 +321,44 @@ def run(ctx) -> None:
                      "failed or been cancelled: the run log does not offer such an item as cancellable/forcible, yet the request is "
                      "accepted (a UOD command node stays cancellable and a Wait forcible after completion) and a further state is "
                      "recorded after the conclusive one - get_runlog() then raises for the rest of the run")
+
+    # ---- R12g
+    ctx.rule("R12g", "a request whose instruction has concluded is not executed")
+    ec = cmc.methods.get("_execute_command")
+    if ec is None:
+        raise AnchorError("CommandManager._execute_command missing")
+    ctx.analysed(ec)
+    g = cfg_of(ec)
+    rpar = ec.node.args.args[1].arg
+    disp = [n for n in g.nodes if n.ast is not None and any(call_attr(c) in ("_execute_internal_command", "_execute_uod_command") for c in n.calls())]
+    if len(disp) < 2:
+        raise AnchorError("_execute_command: dispatch to the two executors not found")
+    guards = []
+    for t in g.nodes:
+        if t.kind != "test":
+            continue
+        for c in ast.walk(t.ast):
+            if isinstance(c, ast.Call) and any(isinstance(a, ast.Attribute) and isinstance(a.value, ast.Name) and a.value.id == rpar
+                                               and a.attr == "instance_id" for a in c.args):
+                for tgt in res.resolve_call(c, ec, cha=False):
+                    if is_conclusive_predicate(tgt):
+                        e_, neg = t.ast, False
+                        while isinstance(e_, ast.UnaryOp) and isinstance(e_.op, ast.Not):
+                            e_, neg = e_.operand, not neg
+                        if e_ is c:
+                            guards.append((t, "F" if neg else "T"))
+    inst = "_execute_command: a request whose invocation has concluded is retired, not executed"
+    ok_ = False
+    for t, lab in guards:
+        reaches = g.search([(t.id, lab)], lambda n: any(n.id == d.id for d in disp), follow_exc=False)
+        retires = g.path_to_exit_avoiding([(t.id, lab)], lambda n: n.ast is not None and any(
+            call_attr(c) == "_executing_command_done" for c in n.calls()), follow_exc=False)
+        if reaches is None and retires is None and all(g.dominates(t, d) for d in disp):
+            ok_ = True
+    if ok_:
+        ctx.ok("R12g", inst)
+    else:
+        ctx.fail("R12g", ec, disp[0].ast, inst, "a command request is executed although its instruction may already have been cancelled: "
+                 "the instruction is offered as cancellable in the tick between its visit and the start of its command; a cancel "
+                 "accepted there records Cancelled, yet the queued request starts the command in the next tick - the cancelled "
+                 "instruction performs its effect, and the states recorded after Cancelled make get_runlog() raise")
